@@ -220,8 +220,17 @@ func (c *c17Config) serve(h http.Handler, method, target string, form url.Values
 	if form != nil {
 		r.Header.Set("Content-Type", "application/x-www-form-urlencoded")
 	}
+	// the browser has other cookies for this site, and sends them first: what the middleware finds must not depend on
+	// how many cookies surround its own
+	for i := 0; i < 18; i++ {
+		r.AddCookie(&http.Cookie{Name: fmt.Sprintf("app_pref_%02d", i), Value: fmt.Sprintf("v%d", i*7)})
+	}
 	for _, ck := range cookies {
 		r.AddCookie(ck)
+	}
+	if method == "POST" && form == nil {
+		// a flow started by a form post from another page: where the post came from is not where the user wanted to go
+		r.Header.Set("Referer", "https://elsewhere.example.net/landing?campaign=x")
 	}
 	w := httptest.NewRecorder()
 	h.ServeHTTP(w, r)
@@ -230,7 +239,11 @@ func (c *c17Config) serve(h http.Handler, method, target string, form url.Values
 
 // startFlow performs the real flow start and records the concrete request.
 func (c *c17Config) startFlow(st *c17State, k int) (c17Reply, string) {
-	w := c.serve(c.protected, "GET", c.uri(k), nil, nil)
+	method := "GET"
+	if k == 2 {
+		method = "POST" // the second flow starts with a form post to the protected URL
+	}
+	w := c.serve(c.protected, method, c.uri(k), nil, nil)
 	rep := c17Reply{Status: w.Code}
 	fl := &c17Flow{}
 	var reqXML []byte
